@@ -33,8 +33,12 @@ Section GenTie.
 
   (** the constants of an object as the generated code sees them; the weight vector is the one the
       constructor stores: [_ws(simpsonWeights())] *)
-  Definition env_of (g : geom) : env K :=
-    mkEnv K (gn g) (gn g) (gnb g) (gdelta K g) (gqp K g) (gfs g) (ws K g) pos.
+  Definition env_w (g : geom) (w : Z -> K) : env K :=
+    mkEnv K (gn g) (gn g) (gnb g) (gdelta K g) (gqp K g) (gfs g) w pos.
+  Definition env_of (g : geom) : env K := env_w g (ws K g).
+  (** ... and the object as it is really constructed: the weights are what the generated
+      simpsonWeights computes *)
+  Definition env_gen (g : geom) : env K := env_w g (gen_ctor_ws K (env_of g)).
   Lemma gsum_sumn n f : gsum K 0 n f = sumn K n f.
   Proof. unfold gsum, sumn. rewrite Z.sub_0_r. reflexivity. Qed.
 
@@ -78,7 +82,7 @@ Section GenTie.
   Theorem gen_simpson_weights_is_model (g : geom) i :
     (1 <= gn g)%Z -> (0 <= i < gn g)%Z -> gen_simpsonWeights K (env_of g) i = ws K g i.
   Proof.
-    intros Hn Hi. unfold gen_simpsonWeights, ws, simpson_weights. cbn [e_nx e_delta env_of].
+    intros Hn Hi. unfold gen_simpsonWeights, ws, simpson_weights. unfold env_of. cbn [e_nx e_delta env_w].
     unfold gdelta. cbn [Z.eqb].
     destruct (gn g <=? 1)%Z eqn:E1.
     - assert (gn g = 1%Z) by lia. assert (i = 0%Z) by lia. subst i.
@@ -120,6 +124,17 @@ Section GenTie.
   Lemma steq_to_mst g s : steq g (to_mst s) s.
   Proof. unfold steq, to_mst. cbn. repeat split; intros; reflexivity. Qed.
 
+  Theorem gen_ctor_ws_is_model (g : geom) i :
+    (0 <= i < gn g)%Z -> gen_ctor_ws K (env_of g) i = ws K g i.
+  Proof. intros Hi. apply (gen_simpson_weights_is_model g i); lia. Qed.
+
+  (** the simulation holds for every weight vector that agrees with the model's inside the grid - the
+      generated operations read the weights nowhere else *)
+  Section Sim.
+  Variable g : geom.
+  Variable w : Z -> K.
+  Hypothesis Hw : forall i, (0 <= i < gn g)%Z -> w i = ws K g i.
+
   Ltac inr_tac :=
     repeat match goal with
     | |- context [inr ?a ?b ?c] => rewrite (inr_in a b c) by lia
@@ -134,68 +149,68 @@ Section GenTie.
         rewrite (sumn_ext K n f h) by (intros; cbv beta; tac; fring)
     end.
 
-  Theorem gen_updateX_sim g m s : steq g m s ->
-    steq g (gen_updateXProjection K (env_of g) m) (updateX K g s).
+  Theorem gen_updateX_sim m s : steq g m s ->
+    steq g (gen_updateXProjection K (env_w g w) m) (updateX K g s).
   Proof.
     intros (Hd & Hx & Hy & Hf & Hi & Hm). unfold gen_updateXProjection, updateX, steq.
-    cbn [m_data m_proj m_fill m_int m_mom set_proj sdata sprojx sprojy sfill sint smom env_of e_nx e_ny e_nb e_ws].
+    cbn [m_data m_proj m_fill m_int m_mom set_proj sdata sprojx sprojy sfill sint smom env_w e_nx e_ny e_nb e_ws].
     repeat split; try assumption.
     intros b i Hb Hi'. cbn [Z.eqb Pos.eqb andb]. inr_tac. cbn [andb].
     rewrite tab2_get by lia. rewrite ?gsum_sumn.
-    to_model (fun y => sdata s b i y * ws K g y) ltac:(rewrite ?Hd by lia). fring.
+    to_model (fun y => sdata s b i y * ws K g y) ltac:(rewrite ?Hd by lia; rewrite ?Hw by lia). fring.
   Qed.
 
-  Theorem gen_updateY_sim g m s : steq g m s ->
-    steq g (gen_updateYProjection K (env_of g) m) (updateY K g s).
+  Theorem gen_updateY_sim m s : steq g m s ->
+    steq g (gen_updateYProjection K (env_w g w) m) (updateY K g s).
   Proof.
     intros (Hd & Hx & Hy & Hf & Hi & Hm). unfold gen_updateYProjection, updateY, steq.
-    cbn [m_data m_proj m_fill m_int m_mom set_proj sdata sprojx sprojy sfill sint smom env_of e_nx e_ny e_nb e_ws].
+    cbn [m_data m_proj m_fill m_int m_mom set_proj sdata sprojx sprojy sfill sint smom env_w e_nx e_ny e_nb e_ws].
     repeat split; try assumption.
     intros b i Hb Hi'. cbn [Z.eqb Pos.eqb andb]. inr_tac. cbn [andb].
     rewrite tab2_get by lia. rewrite ?gsum_sumn.
-    to_model (fun x => sdata s b x i * ws K g x) ltac:(rewrite ?Hd by lia). fring.
+    to_model (fun x => sdata s b x i * ws K g x) ltac:(rewrite ?Hd by lia; rewrite ?Hw by lia). fring.
   Qed.
 
-  Theorem gen_integrate_sim g m s : steq g m s ->
-    steq g (gen_integrate K (env_of g) m) (integrate K g s).
+  Theorem gen_integrate_sim m s : steq g m s ->
+    steq g (gen_integrate K (env_w g w) m) (integrate K g s).
   Proof.
     intros (Hd & Hx & Hy & Hf & Hi & Hm). unfold gen_integrate, integrate. cbv zeta.
     match goal with |- context [set_fill K ?f m] => set (G' := f) end.
     set (F := tabA 0 (gnb g) (fun b => sumn K (gn g) (fun x => sprojx s b x * ws K g x))).
     assert (HF : forall b, (0 <= b < gnb g)%Z -> G' b = F b).
-    { intros b Hb. unfold G', F. cbn [env_of e_nx e_ny e_nb e_ws]. inr_tac. rewrite tabA_get by lia. rewrite ?gsum_sumn.
-      to_model (fun x => sprojx s b x * ws K g x) ltac:(rewrite ?Hx by lia). fring. }
+    { intros b Hb. unfold G', F. cbn [env_w e_nx e_ny e_nb e_ws]. inr_tac. rewrite tabA_get by lia. rewrite ?gsum_sumn.
+      to_model (fun x => sprojx s b x * ws K g x) ltac:(rewrite ?Hx by lia; rewrite ?Hw by lia). fring. }
     unfold steq.
-    cbn [m_data m_proj m_fill m_int m_mom set_fill set_int sdata sprojx sprojy sfill sint smom env_of e_nx e_ny e_nb e_ws].
+    cbn [m_data m_proj m_fill m_int m_mom set_fill set_int sdata sprojx sprojy sfill sint smom env_w e_nx e_ny e_nb e_ws].
     repeat split; try assumption.
     rewrite ?gsum_sumn. to_model F ltac:(rewrite ?HF by lia). fring.
   Qed.
 
-  Theorem gen_normalize_sim g m s : steq g m s ->
-    steq g (gen_normalize K (env_of g) m) (normalize K pos g s).
+  Theorem gen_normalize_sim m s : steq g m s ->
+    steq g (gen_normalize K (env_w g w) m) (normalize K pos g s).
   Proof.
     intros (Hd & Hx & Hy & Hf & Hi & Hm). unfold gen_normalize, normalize, steq.
-    cbn [m_data m_proj m_fill m_int m_mom set_data sdata sprojx sprojy sfill sint smom env_of e_nx e_ny e_nb e_fset e_pos].
+    cbn [m_data m_proj m_fill m_int m_mom set_data sdata sprojx sprojy sfill sint smom env_w e_nx e_ny e_nb e_fset e_pos].
     repeat split; try assumption.
     intros b x y Hb Hx' Hy'. inr_tac. cbn [andb]. rewrite tab3_get by lia.
     destruct (pos (gfs g b)); rewrite ?Hd, ?Hf by lia; fring.
   Qed.
 
-  Lemma maxi_n (g : geom) axis : (if (axis =? 0)%Z then gn g else gn g) = gn g.
+  Lemma maxi_n axis : (if (axis =? 0)%Z then gn g else gn g) = gn g.
   Proof. destruct (axis =? 0)%Z; reflexivity. Qed.
 
-  Lemma proj_axis g m s axis : steq g m s -> (axis = 0 \/ axis = 1)%Z -> forall b i,
+  Lemma proj_axis m s axis : steq g m s -> (axis = 0 \/ axis = 1)%Z -> forall b i,
     (0 <= b < gnb g)%Z -> (0 <= i < gn g)%Z -> m_proj m axis b i = sproj K s axis b i.
   Proof.
     intros (Hd & Hx & Hy & Hf & Hi & Hm) [-> | ->] b i Hb Hi'; unfold sproj; cbn [Z.eqb]; [apply Hx | apply Hy]; assumption.
   Qed.
 
-  Theorem gen_average_sim g m s axis : (axis = 0 \/ axis = 1)%Z -> steq g m s ->
-    steq g (gen_average K (env_of g) axis m) (average K pos g axis s).
+  Theorem gen_average_sim m s axis : (axis = 0 \/ axis = 1)%Z -> steq g m s ->
+    steq g (gen_average K (env_w g w) axis m) (average K pos g axis s).
   Proof.
-    intros Ha H. pose proof H as (Hd & Hx & Hy & Hf & Hi & Hm). pose proof (proj_axis g m s axis H Ha) as Hp.
+    intros Ha H. pose proof H as (Hd & Hx & Hy & Hf & Hi & Hm). pose proof (proj_axis m s axis H Ha) as Hp.
     unfold gen_average, average, steq.
-    cbn [m_data m_proj m_fill m_int m_mom MomentsIR.set_mom sdata sprojx sprojy sfill sint smom env_of e_nx e_ny e_nb e_fset e_pos e_qp e_delta].
+    cbn [m_data m_proj m_fill m_int m_mom MomentsIR.set_mom sdata sprojx sprojy sfill sint smom env_w e_nx e_ny e_nb e_fset e_pos e_qp e_delta].
     repeat split; try assumption.
     intros a o b Ha' Ho Hb. unfold Moments.set_mom.
     destruct ((a =? axis)%Z && (o =? 0)%Z)%bool eqn:E.
@@ -207,14 +222,14 @@ Section GenTie.
     - cbn [andb]. apply Hm; assumption.
   Qed.
 
-  Theorem gen_variance_sim g m s axis : (axis = 0 \/ axis = 1)%Z -> steq g m s ->
-    steq g (gen_variance K (env_of g) axis m) (variance K pos g axis s).
+  Theorem gen_variance_sim m s axis : (axis = 0 \/ axis = 1)%Z -> steq g m s ->
+    steq g (gen_variance K (env_w g w) axis m) (variance K pos g axis s).
   Proof.
-    intros Ha H0. pose proof (gen_average_sim g m s axis Ha H0) as H.
+    intros Ha H0. pose proof (gen_average_sim m s axis Ha H0) as H.
     unfold gen_variance, variance. cbv zeta.
-    set (m1 := gen_average K (env_of g) axis m) in *. set (s1 := average K pos g axis s) in *.
-    pose proof H as (Hd & Hx & Hy & Hf & Hi & Hm). pose proof (proj_axis g m1 s1 axis H Ha) as Hp. unfold steq.
-    cbn [m_data m_proj m_fill m_int m_mom MomentsIR.set_mom sdata sprojx sprojy sfill sint smom env_of e_nx e_ny e_nb e_fset e_pos e_qp e_delta].
+    set (m1 := gen_average K (env_w g w) axis m) in *. set (s1 := average K pos g axis s) in *.
+    pose proof H as (Hd & Hx & Hy & Hf & Hi & Hm). pose proof (proj_axis m1 s1 axis H Ha) as Hp. unfold steq.
+    cbn [m_data m_proj m_fill m_int m_mom MomentsIR.set_mom sdata sprojx sprojy sfill sint smom env_w e_nx e_ny e_nb e_fset e_pos e_qp e_delta].
     repeat split; try assumption.
     intros a o b Ha' Ho Hb. unfold Moments.set_mom.
     destruct ((a =? axis)%Z && (o =? 1)%Z)%bool eqn:E.
@@ -228,16 +243,16 @@ Section GenTie.
     - cbn [andb]. apply Hm; assumption.
   Qed.
 
-  Theorem gen_integrateAndNormalize_sim g m s : steq g m s ->
-    steq g (gen_integrateAndNormalize K (env_of g) m) (normalize K pos g (integrate K g s)).
+  Theorem gen_integrateAndNormalize_sim m s : steq g m s ->
+    steq g (gen_integrateAndNormalize K (env_w g w) m) (normalize K pos g (integrate K g s)).
   Proof. intros H. unfold gen_integrateAndNormalize. cbv zeta. apply gen_normalize_sim, gen_integrate_sim, H. Qed.
 
   (** the refresh sequence of the constructor and of operator= is the model's [refresh] *)
-  Theorem gen_ctor_refresh_sim g m s : steq g m s ->
-    steq g (gen_ctor_refresh K (env_of g) m) (refresh K g s).
+  Theorem gen_ctor_refresh_sim m s : steq g m s ->
+    steq g (gen_ctor_refresh K (env_w g w) m) (refresh K g s).
   Proof. intros H. unfold gen_ctor_refresh, refresh. apply gen_integrate_sim, gen_updateY_sim, gen_updateX_sim, H. Qed.
-  Theorem gen_assign_refresh_sim g m s : steq g m s ->
-    steq g (gen_assign_refresh K (env_of g) m) (refresh K g s).
+  Theorem gen_assign_refresh_sim m s : steq g m s ->
+    steq g (gen_assign_refresh K (env_w g w) m) (refresh K g s).
   Proof. intros H. unfold gen_assign_refresh, refresh. apply gen_integrate_sim, gen_updateY_sim, gen_updateX_sim, H. Qed.
 
   (** ** operation histories: the generated operations simulate [run_ops] *)
@@ -254,7 +269,7 @@ Section GenTie.
     else m.
   Definition gen_run_ops (E : env K) (m : mst K) (ops : list Z) : mst K := fold_left (gen_run_op E) ops m.
 
-  Lemma gen_run_op_sim g m s op : steq g m s -> steq g (gen_run_op (env_of g) m op) (run_op K pos g s op).
+  Lemma gen_run_op_sim m s op : steq g m s -> steq g (gen_run_op (env_w g w) m op) (run_op K pos g s op).
   Proof.
     intros H. unfold gen_run_op, run_op.
     repeat match goal with |- context [(op =? ?k)%Z] => destruct (op =? k)%Z end;
@@ -262,8 +277,8 @@ Section GenTie.
                  gen_average_sim, gen_variance_sim, gen_integrateAndNormalize_sim.
   Qed.
 
-  Theorem gen_run_ops_sim g ops : forall m s, steq g m s ->
-    steq g (gen_run_ops (env_of g) m ops) (run_ops K pos g s ops).
+  Theorem gen_run_ops_sim ops : forall m s, steq g m s ->
+    steq g (gen_run_ops (env_w g w) m ops) (run_ops K pos g s ops).
   Proof.
     unfold gen_run_ops, run_ops. induction ops as [|op ops IH]; intros m s H; cbn [fold_left]; [exact H|].
     apply IH, gen_run_op_sim, H.
@@ -272,53 +287,50 @@ Section GenTie.
   (** ** the property theorems, stated on the generated operations themselves *)
   Definition of_mst (m : mst K) : state :=
     mkState K (m_data m) (m_proj m 0%Z) (m_proj m 1%Z) (m_fill m) (m_int m) (m_mom m).
-  Lemma steq_of_mst g m : steq g m (of_mst m).
+  Lemma steq_of_mst m : steq g m (of_mst m).
   Proof. unfold steq, of_mst. cbn. repeat split; intros; reflexivity. Qed.
 
   Lemma sproj_of_mst m axis : (axis = 0 \/ axis = 1)%Z -> sproj K (of_mst m) axis = m_proj m axis.
   Proof. intros [-> | ->]; reflexivity. Qed.
 
-  Theorem gen_ctor_ws_is_model (g : geom) i :
-    (1 <= gn g)%Z -> (0 <= i < gn g)%Z -> gen_ctor_ws K (env_of g) i = ws K g i.
-  Proof. exact (gen_simpson_weights_is_model g i). Qed.
 
-  Theorem gen_normalize_restores_share (g : geom) (m : mst K) b :
+  Theorem gen_normalize_restores_share (m : mst K) b :
     (0 <= b < gnb g)%Z -> pos (gfs g b) = true ->
     m_fill m b = charge_of K g (m_data m) b -> m_fill m b <> 0 ->
-    m_fill (gen_integrate K (env_of g) (gen_updateXProjection K (env_of g) (gen_normalize K (env_of g) m))) b = gfs g b.
+    m_fill (gen_integrate K (env_w g w) (gen_updateXProjection K (env_w g w) (gen_normalize K (env_w g w) m))) b = gfs g b.
   Proof.
     intros Hb Hp Hc Hz.
-    pose proof (gen_integrate_sim g _ _ (gen_updateX_sim g _ _ (gen_normalize_sim g _ _ (steq_of_mst g m)))) as (_ & _ & _ & Hf & _).
+    pose proof (gen_integrate_sim _ _ (gen_updateX_sim _ _ (gen_normalize_sim _ _ (steq_of_mst m)))) as (_ & _ & _ & Hf & _).
     rewrite (Hf b Hb). apply normalize_restores_share; assumption.
   Qed.
 
-  Theorem gen_normalize_empty_bucket (g : geom) (m : mst K) b :
+  Theorem gen_normalize_empty_bucket (m : mst K) b :
     (0 <= b < gnb g)%Z -> pos (gfs g b) = false ->
-    m_fill (gen_integrate K (env_of g) (gen_updateXProjection K (env_of g) (gen_normalize K (env_of g) m))) b = 0 /\
-    (forall x y, (0 <= x < gn g)%Z -> (0 <= y < gn g)%Z -> m_data (gen_normalize K (env_of g) m) b x y = 0).
+    m_fill (gen_integrate K (env_w g w) (gen_updateXProjection K (env_w g w) (gen_normalize K (env_w g w) m))) b = 0 /\
+    (forall x y, (0 <= x < gn g)%Z -> (0 <= y < gn g)%Z -> m_data (gen_normalize K (env_w g w) m) b x y = 0).
   Proof.
     intros Hb Hp.
-    pose proof (gen_normalize_sim g _ _ (steq_of_mst g m)) as Hn.
-    pose proof (gen_integrate_sim g _ _ (gen_updateX_sim g _ _ Hn)) as (_ & _ & _ & Hf & _).
+    pose proof (gen_normalize_sim _ _ (steq_of_mst m)) as Hn.
+    pose proof (gen_integrate_sim _ _ (gen_updateX_sim _ _ Hn)) as (_ & _ & _ & Hf & _).
     destruct (normalize_empty_bucket K pos g (of_mst m) b Hb Hp) as [A B]. split.
     - rewrite (Hf b Hb). exact A.
     - intros x y Hx Hy. destruct Hn as (Hd & _). rewrite (Hd b x y Hb Hx Hy). apply B; assumption.
   Qed.
 
-  Theorem gen_average_is_first_moment (g : geom) (m : mst K) axis b :
+  Theorem gen_average_is_first_moment (m : mst K) axis b :
     (axis = 0 \/ axis = 1)%Z -> (0 <= b < gnb g)%Z -> pos (gfs g b) = true -> m_fill m b <> 0 ->
-    m_mom (gen_average K (env_of g) axis m) axis 0%Z b =
+    m_mom (gen_average K (env_w g w) axis m) axis 0%Z b =
     first_moment K (gn g) (gdelta K g axis) (gqp K g axis) (m_proj m axis b) (m_fill m b).
   Proof.
     intros Ha Hb Hp Hz.
-    pose proof (gen_average_sim g _ _ axis Ha (steq_of_mst g m)) as (_ & _ & _ & _ & _ & Hm).
+    pose proof (gen_average_sim _ _ axis Ha (steq_of_mst m)) as (_ & _ & _ & _ & _ & Hm).
     rewrite (Hm axis 0%Z b Ha (or_introl eq_refl) Hb).
     rewrite (average_is_first_moment K pos g (of_mst m) axis b Hb Hp Hz), (sproj_of_mst m axis Ha). reflexivity.
   Qed.
 
-  Theorem gen_variance_is_second_central_moment (g : geom) (m : mst K) axis b :
+  Theorem gen_variance_is_second_central_moment (m : mst K) axis b :
     (axis = 0 \/ axis = 1)%Z -> (0 <= b < gnb g)%Z -> pos (gfs g b) = true -> m_fill m b <> 0 ->
-    let m' := gen_variance K (env_of g) axis m in
+    let m' := gen_variance K (env_w g w) axis m in
     m_mom m' axis 0%Z b =
       first_moment K (gn g) (gdelta K g axis) (gqp K g axis) (m_proj m axis b) (m_fill m b) /\
     m_mom m' axis 1%Z b =
@@ -326,20 +338,74 @@ Section GenTie.
                             (m_mom m' axis 0%Z b).
   Proof.
     intros Ha Hb Hp Hz m'.
-    pose proof (gen_variance_sim g _ _ axis Ha (steq_of_mst g m)) as (_ & _ & _ & _ & _ & Hm).
+    pose proof (gen_variance_sim _ _ axis Ha (steq_of_mst m)) as (_ & _ & _ & _ & _ & Hm).
     fold m' in Hm.
     rewrite (Hm axis 0%Z b Ha (or_introl eq_refl) Hb), (Hm axis 1%Z b Ha (or_intror eq_refl) Hb).
     destruct (variance_is_second_central_moment K pos g (of_mst m) axis b Hb Hp Hz) as [A B].
     rewrite (sproj_of_mst m axis Ha) in A, B. split; assumption.
   Qed.
 
-  Theorem gen_moments_empty_bucket (g : geom) (m : mst K) axis b :
+  Theorem gen_moments_empty_bucket (m : mst K) axis b :
     (axis = 0 \/ axis = 1)%Z -> (0 <= b < gnb g)%Z -> pos (gfs g b) = false ->
-    m_mom (gen_variance K (env_of g) axis m) axis 0%Z b = 0 /\ m_mom (gen_variance K (env_of g) axis m) axis 1%Z b = 0.
+    m_mom (gen_variance K (env_w g w) axis m) axis 0%Z b = 0 /\ m_mom (gen_variance K (env_w g w) axis m) axis 1%Z b = 0.
   Proof.
     intros Ha Hb Hp.
-    pose proof (gen_variance_sim g _ _ axis Ha (steq_of_mst g m)) as (_ & _ & _ & _ & _ & Hm).
+    pose proof (gen_variance_sim _ _ axis Ha (steq_of_mst m)) as (_ & _ & _ & _ & _ & Hm).
     rewrite (Hm axis 0%Z b Ha (or_introl eq_refl) Hb), (Hm axis 1%Z b Ha (or_intror eq_refl) Hb).
     apply moments_empty_bucket; assumption.
   Qed.
+  End Sim.
+
+  (** the two instances: the model's own weights, and the weights the generated simpsonWeights computes
+      (the object as constructed) *)
+  Theorem gen_run_ops_sim_of g ops m s : steq g m s ->
+    steq g (gen_run_ops (env_of g) m ops) (run_ops K pos g s ops).
+  Proof. apply (gen_run_ops_sim g (ws K g)). intros i _. reflexivity. Qed.
+
+  Theorem gen_run_ops_sim_constructed g ops m s : steq g m s ->
+    steq g (gen_run_ops (env_gen g) m ops) (run_ops K pos g s ops).
+  Proof. apply (gen_run_ops_sim g (gen_ctor_ws K (env_of g))). apply gen_ctor_ws_is_model. Qed.
+
+  Theorem gen_refresh_sim_constructed g m s : steq g m s ->
+    steq g (gen_ctor_refresh K (env_gen g) m) (refresh K g s) /\
+    steq g (gen_assign_refresh K (env_gen g) m) (refresh K g s).
+  Proof.
+    intros H. split.
+    - apply (gen_ctor_refresh_sim g (gen_ctor_ws K (env_of g)) (gen_ctor_ws_is_model g)). exact H.
+    - apply (gen_assign_refresh_sim g (gen_ctor_ws K (env_of g)) (gen_ctor_ws_is_model g)). exact H.
+  Qed.
+
+  (** the property theorems on the object as constructed *)
+  Theorem gen_normalize_restores_share_c (g : geom) (m : mst K) b :
+    (0 <= b < gnb g)%Z -> pos (gfs g b) = true ->
+    m_fill m b = charge_of K g (m_data m) b -> m_fill m b <> 0 ->
+    m_fill (gen_integrate K (env_gen g) (gen_updateXProjection K (env_gen g) (gen_normalize K (env_gen g) m))) b = gfs g b.
+  Proof. exact (gen_normalize_restores_share g _ (gen_ctor_ws_is_model g) m b). Qed.
+
+  Theorem gen_normalize_empty_bucket_c (g : geom) (m : mst K) b :
+    (0 <= b < gnb g)%Z -> pos (gfs g b) = false ->
+    m_fill (gen_integrate K (env_gen g) (gen_updateXProjection K (env_gen g) (gen_normalize K (env_gen g) m))) b = 0 /\
+    (forall x y, (0 <= x < gn g)%Z -> (0 <= y < gn g)%Z -> m_data (gen_normalize K (env_gen g) m) b x y = 0).
+  Proof. exact (gen_normalize_empty_bucket g _ (gen_ctor_ws_is_model g) m b). Qed.
+
+  Theorem gen_average_is_first_moment_c (g : geom) (m : mst K) axis b :
+    (axis = 0 \/ axis = 1)%Z -> (0 <= b < gnb g)%Z -> pos (gfs g b) = true -> m_fill m b <> 0 ->
+    m_mom (gen_average K (env_gen g) axis m) axis 0%Z b =
+    first_moment K (gn g) (gdelta K g axis) (gqp K g axis) (m_proj m axis b) (m_fill m b).
+  Proof. exact (gen_average_is_first_moment g _ m axis b). Qed.
+
+  Theorem gen_variance_is_second_central_moment_c (g : geom) (m : mst K) axis b :
+    (axis = 0 \/ axis = 1)%Z -> (0 <= b < gnb g)%Z -> pos (gfs g b) = true -> m_fill m b <> 0 ->
+    let m' := gen_variance K (env_gen g) axis m in
+    m_mom m' axis 0%Z b =
+      first_moment K (gn g) (gdelta K g axis) (gqp K g axis) (m_proj m axis b) (m_fill m b) /\
+    m_mom m' axis 1%Z b =
+      second_central_moment K (gn g) (gdelta K g axis) (gqp K g axis) (m_proj m axis b) (m_fill m b)
+                            (m_mom m' axis 0%Z b).
+  Proof. exact (gen_variance_is_second_central_moment g _ m axis b). Qed.
+
+  Theorem gen_moments_empty_bucket_c (g : geom) (m : mst K) axis b :
+    (axis = 0 \/ axis = 1)%Z -> (0 <= b < gnb g)%Z -> pos (gfs g b) = false ->
+    m_mom (gen_variance K (env_gen g) axis m) axis 0%Z b = 0 /\ m_mom (gen_variance K (env_gen g) axis m) axis 1%Z b = 0.
+  Proof. exact (gen_moments_empty_bucket g _ m axis b). Qed.
 End GenTie.
